@@ -1,0 +1,158 @@
+// Verification hooks. Only compiled with `--cfg alpha_g_verif`.
+//
+// Thin forwarding wrappers around crate-private functions, plus control over
+// the only iteration-order nondeterminism in `MainEvent::try_from_banks`.
+// Nothing in here changes the behaviour of the library unless the harness
+// explicitly asks for it (thread-local, unset by default).
+use crate::deconvolution;
+use crate::matching;
+use crate::reconstruction::{Cluster, Track};
+use crate::{MainEvent, SpacePoint};
+use alpha_g_detector::alpha16::aw_map::TPC_ANODE_WIRES;
+use alpha_g_detector::padwing::map::{TPC_PAD_COLUMNS, TPC_PAD_ROWS};
+use alpha_g_detector::padwing::{AfterId, BoardId, Chunk};
+use std::cell::Cell;
+use std::collections::HashMap;
+
+thread_local! {
+    static GROUP_ORDER: Cell<Option<u64>> = const { Cell::new(None) };
+    static LAST_GROUP_COUNT: Cell<usize> = const { Cell::new(0) };
+}
+
+/// Select the order in which the (board, chip) chunk groups are visited by
+/// `MainEvent::try_from_banks` on this thread. `None` keeps the HashMap's own
+/// order. `Some(k)` visits the groups in the k-th (mod n!) lexicographic
+/// permutation of the groups sorted by (board name, chip).
+pub fn set_group_order(order: Option<u64>) {
+    GROUP_ORDER.with(|c| c.set(order));
+}
+
+/// Number of (board, chip) groups seen by the last `try_from_banks` call on
+/// this thread that reached the group loop.
+pub fn last_group_count() -> usize {
+    LAST_GROUP_COUNT.with(|c| c.get())
+}
+
+pub(crate) struct GroupOrder {
+    groups: Vec<Vec<Chunk>>,
+}
+
+fn after_rank(a: AfterId) -> u8 {
+    match a {
+        AfterId::A => 0,
+        AfterId::B => 1,
+        AfterId::C => 2,
+        AfterId::D => 3,
+    }
+}
+
+impl GroupOrder {
+    pub(crate) fn new(map: HashMap<(BoardId, AfterId), Vec<Chunk>>) -> Self {
+        LAST_GROUP_COUNT.with(|c| c.set(map.len()));
+        match GROUP_ORDER.with(|c| c.get()) {
+            None => GroupOrder {
+                groups: map.into_values().collect(),
+            },
+            Some(mut k) => {
+                let mut items: Vec<_> = map.into_iter().collect();
+                items.sort_by_key(|((b, a), _)| (b.name().to_string(), after_rank(*a)));
+                let n = items.len();
+                let mut fact = vec![1u64; n + 1];
+                for i in 1..=n {
+                    fact[i] = fact[i - 1].saturating_mul(i as u64);
+                }
+                if n > 0 {
+                    k %= fact[n];
+                }
+                let mut groups = Vec::with_capacity(n);
+                for i in (0..n).rev() {
+                    let idx = (k / fact[i]) as usize;
+                    k %= fact[i];
+                    groups.push(items.remove(idx).1);
+                }
+                GroupOrder { groups }
+            }
+        }
+    }
+    pub(crate) fn into_values(self) -> std::vec::IntoIter<Vec<Chunk>> {
+        self.groups.into_iter()
+    }
+}
+
+pub type WireSignals = [Option<Vec<f64>>; TPC_ANODE_WIRES];
+pub type PadSignals = [[Option<Vec<f64>>; TPC_PAD_ROWS]; TPC_PAD_COLUMNS];
+
+impl MainEvent {
+    pub fn verif_wire_signals(&self) -> &WireSignals {
+        &self.wire_signals
+    }
+    pub fn verif_pad_signals(&self) -> &PadSignals {
+        &self.pad_signals
+    }
+    /// Build an event directly from calibrated signals.
+    pub fn verif_from_signals(
+        wire_signals: WireSignals,
+        pad_signals: PadSignals,
+        trigger_timestamp: u32,
+    ) -> Self {
+        MainEvent {
+            wire_signals,
+            pad_signals,
+            trigger_timestamp,
+        }
+    }
+}
+
+pub fn contiguous_ranges(wire_signals: &WireSignals) -> Vec<(usize, usize)> {
+    deconvolution::wires::contiguous_ranges(wire_signals)
+}
+
+pub fn wire_range_deconvolution(
+    wire_signals: &WireSignals,
+    range: (usize, usize),
+) -> Vec<(usize, Vec<f64>)> {
+    deconvolution::wires::wire_range_deconvolution(wire_signals, range)
+}
+
+pub fn pad_deconvolution(signal: &[f64]) -> Vec<f64> {
+    deconvolution::pads::pad_deconvolution(signal)
+}
+
+pub fn wire_response() -> Vec<f64> {
+    deconvolution::wires::verif_wire_response()
+}
+
+pub fn pad_response() -> Vec<f64> {
+    deconvolution::pads::verif_pad_response()
+}
+
+pub fn wire_to_pad_column(wire: usize) -> usize {
+    matching::wire_to_pad_column(wire)
+}
+
+pub fn pad_column_to_wires(pad_column: usize) -> std::ops::Range<usize> {
+    matching::pad_column_to_wires(pad_column)
+}
+
+/// Pad hits (z in metres, amplitude) of one pad column at time bin `t`, in the
+/// order they are found (before the amplitude sort).
+pub fn pad_hits_at_t(pad_column_inputs: &[Vec<f64>; TPC_PAD_ROWS], t: usize) -> Vec<(f64, f64)> {
+    matching::verif_pad_hits_at_t(pad_column_inputs, t)
+}
+
+pub fn cluster_from_points(points: Vec<SpacePoint>) -> Cluster {
+    Cluster::verif_from_points(points)
+}
+
+/// Parameters are `[x0, y0, z0, r, phi0, h]` in metres and radians.
+pub fn track_from_params(params: [f64; 6], t_inner: f64, t_outer: f64) -> Track {
+    Track::verif_from_params(params, t_inner, t_outer)
+}
+
+pub fn track_params(track: &Track) -> [f64; 6] {
+    track.verif_params()
+}
+
+pub fn closest_t(track: &Track, p: SpacePoint, tolerance: f64, max_num_iter: usize) -> f64 {
+    track.verif_closest_t(p, tolerance, max_num_iter)
+}
